@@ -90,6 +90,24 @@ NoExpiredServed == out.ev = "op" /\ out.ok /\ out.op \in {"Get", "GetWithExpirat
 CountIsPhysical == ICount(P) >= Cardinality(VisibleKeys(S, now)) /\ ICount(P) <= Cardinality(S.pm)
 DefaultsAgree == P.def = S.def /\ P.cb = S.cb
 
+(* Action properties on the implementation-shaped state alone (no reference to the acceptor):            *)
+(* readers, Range/Items, Count, the default/callback setters and the passage of time leave every entry that *)
+(* stays present exactly as it was (value and expiry: C09 "leave it untouched", "changing the default never *)
+(* alters entries already stored"); an entry disappears physically only if it is expired at that instant,   *)
+(* or the call is a remover addressed to that key, or Clear (C01 "an unexpired value is never dropped");    *)
+(* the stored default and callback change only through their setters.                                       *)
+ReaderOps == {"Get", "GetWithExpiration", "GetWithTTL", "Range", "RangeNil", "Items", "Count", "DefaultExpiration",
+              "SetDefaultExpiration", "SetEvictedCallback", "DeleteExpired", "Tick"}
+ReadersLeaveEntriesAlone ==
+  [][out'.op \in ReaderOps => \A k \in (DOMAIN P.items) \cap (DOMAIN P'.items) : P'.items[k] = P.items[k]]_vars
+OnlyExpiredOrAddressedRemoved ==
+  [][\A k \in (DOMAIN P.items) \ (DOMAIN P'.items) :
+        \/ IExpired(P.items[k], now')
+        \/ out'.op = "Clear"
+        \/ (out'.op \in {"Delete", "GetAndDelete", "Compute"} /\ out'.k = k)]_vars
+SettersOnly == [][/\ (P'.def # P.def => out'.op = "SetDefaultExpiration")
+                  /\ (P'.cb # P.cb => out'.op = "SetEvictedCallback")]_vars
+
 \* model values for the configuration files (negative numbers cannot be written in a cfg)
 NoExpNs == -2000000000
 DefExpNs == -1000000000
